@@ -14,6 +14,7 @@
 /*                                                                           */
 /*****************************************************************************/
 
+#include "dynstr.h"
 #include "errmsg.h"
 #include "lstmacroexp.h"
 #include "strcomp.h"
@@ -101,7 +102,7 @@ extern void PrintDefineList(void);
 
 extern void ClearDefineList(void);
 
-extern void ExpandDefines(char* Line);
+extern void ExpandDefines(as_dynstr_t* p_line);
 
 extern void asmmac_init(void);
 #endif /* ASMMAC_H */
